@@ -113,7 +113,23 @@ pub fn region_protocol(image: &mut JxlImage, rsrc: &mut Src, classes: &mut Vec<S
                             // bodies / scalar tails, amplified by the opsin matrix and the transfer curve (known finding);
                             // anything larger is a different kind of failure
                             let small = (a - b).abs() <= 10.0 * TOL * a.abs().max(b.abs()).max(1.0);
-                            let sig = if ri == n_regions { "final-full-render-differs" } else if small { "region-sample:within-10x-tolerance" } else { "region-sample" };
+                            // the same rounding noise at a pixel far outside the gamut: the colour channels of this pixel
+                            // come out of the opsin matrix as differences of terms an order of magnitude larger than the
+                            // largest of them (coefficients up to 11), so one ulp of such a term is already > 1e-6 in a
+                            // channel that cancels to nearly zero, and the sRGB curve's linear segment multiplies it by
+                            // 12.92.  Known finding, bounded: some colour channel of the pixel beyond +-1.5 and the
+                            // difference at most 1e-4; anything else keeps the plain signature.
+                            let pixel_max = full[k].iter().take(3).filter(|ch| ch.0 == w && ch.2.len() > (t + y) * w + l + x).map(|ch| ch.2[(t + y) * w + l + x].abs()).fold(0f32, f32::max);
+                            let cancel = pixel_max > 1.5 && (a - b).abs() <= 1e-4;
+                            let sig = if ri == n_regions {
+                                "final-full-render-differs"
+                            } else if small {
+                                "region-sample:within-10x-tolerance"
+                            } else if cancel {
+                                "region-sample:out-of-gamut-cancellation"
+                            } else {
+                                "region-sample"
+                            };
                             return Some((sig.into(), format!("request #{ri} region ({l},{t},{rw},{rh}) keyframe {k} channel {c} at ({x},{y}): {a} vs full render {b}")));
                         }
                     }
